@@ -4,6 +4,7 @@ import (
 	"go/token"
 	"go/types"
 	"sort"
+	"strings"
 
 	"golang.org/x/tools/go/ssa"
 
@@ -26,7 +27,7 @@ func runC10(c *Ctx) {
 	ruleCancelError(c, p, roles)
 	ruleNoLeak(c, p, roles)
 	ruleHandshakeWatchdog(c, p)
-	rulePacketDeadline(c, p)
+	rulePacketDeadline(c, p, "C10.deadline")
 	c.R.Assumptions = append(c.R.Assumptions,
 		"net.Conn.Close unblocks pending reads and writes; errgroup.Wait waits for all goroutines",
 		"decided: shape of the Cancel packet, close on every cancellation path, error provenance, every blocking wait has a context- or sibling-controlled exit, the read deadline honours the context deadline; not decided: the time bound itself")
@@ -439,6 +440,41 @@ func ruleHandshakeWatchdog(c *Ctx, p *core.Program) {
 	} else {
 		c.R.Bad(rule, core.FuncName(dog), cfg, p.Pos(dog.Pos()), sprintf("watchdog: parent ctx.Done() case=%v, closes connection=%v", parentCase, closes))
 	}
+	// the watchdog lives only until the handshake goroutine ends: no transport
+	// operation may follow the Wait in handshake's own body
+	flushFn := p.Method(core.PkgCh, "Client", "flush")
+	isIO := func(in ssa.Instruction) bool {
+		call, ok := in.(ssa.CallInstruction)
+		if !ok {
+			return false
+		}
+		f := core.StaticFn(call)
+		if f == nil || pkgOf(f) == nil || pkgOf(f).Path() != core.PkgCh {
+			return false
+		}
+		if f == flushFn || f.Name() == "packet" || f.Name() == "flushBuf" {
+			return true
+		}
+		for g := range core.StaticReach(f, 4) {
+			if g == flushFn || g.Name() == "packet" && pkgOf(g) != nil && pkgOf(g).Path() == core.PkgCh {
+				return true
+			}
+		}
+		return false
+	}
+	var wait ssa.Instruction
+	for _, call := range core.Calls(hs) {
+		if f := core.CalleeFunc(call); f != nil && f.Name() == "Wait" && f.Pkg() != nil && (f.Pkg().Path() == "golang.org/x/sync/errgroup" || f.Pkg().Path() == "sync") {
+			wait = call.(ssa.Instruction)
+		}
+	}
+	if wait == nil {
+		c.R.Unk(rule, core.FuncName(hs)+"/covered", cfg, p.Pos(hs.Pos()), "handshake does not wait for its goroutines (Wait call not found)")
+	} else if w := core.ReachAvoiding(core.PointOf(wait), isIO, nil, nil); len(w) > 0 {
+		c.R.Bad(rule, core.FuncName(hs)+"/covered", cfg, p.Pos(w[0].At.Pos()), "handshake touches the transport after Wait(): the watchdog has exited by then, so a cancellation while this read/write blocks neither closes the connection nor ends the call")
+	} else {
+		c.R.Ok(rule, core.FuncName(hs)+"/covered", cfg, p.Pos(wait.Pos()), "no transport operation after the watched goroutines are joined")
+	}
 	// error on failure mentions ctx.Err()
 	okErr := false
 	for _, b := range hs.Blocks {
@@ -476,9 +512,8 @@ func isParamCell(fn *ssa.Function, cell ssa.Value, name string) bool {
 }
 
 // C10.deadline: packet() applies the context deadline also when no read timeout is configured.
-func rulePacketDeadline(c *Ctx, p *core.Program) {
-	rule := "C10.deadline"
-	c.R.Rule(rule, "in packet() (or the helper it uses), the context's deadline is selected as read deadline not only when it is earlier than the read-timeout deadline but also when no read timeout is configured: the point that takes the context deadline (a phi edge or a return of it) stays reachable when the true edge of Time.Before is removed; the selected value reaches SetReadDeadline")
+func rulePacketDeadline(c *Ctx, p *core.Program, rule string) {
+	c.R.Rule(rule, "in packet() (or the helper it uses), the context's deadline is selected as read deadline not only when it is earlier than the read-timeout deadline but also when no read timeout is configured: the point that takes the context deadline (a phi edge or a return of it) stays reachable when the true edge of Time.Before is removed; the selected value reaches SetReadDeadline. The comparison takes the EARLIER of the two (ctxDeadline.Before(timeoutDeadline) or timeoutDeadline.After(ctxDeadline)), and the read-timeout deadline now+ReadTimeout is computed only on an edge that implies ReadTimeout > 0 (evaluated at -1 = NoTimeout, 0 and 1)")
 	cfg := p.Cfg.Name
 	pk := p.Method(core.PkgCh, "Client", "packet")
 	if !c.must(p, "(*ch.Client).packet", pk != nil) {
@@ -549,6 +584,103 @@ func rulePacketDeadline(c *Ctx, p *core.Program) {
 						}
 					}
 				}
+			}
+		}
+	}
+	// the comparison picks the earlier deadline
+	isD := func(v ssa.Value) bool {
+		return core.DependsOn(v, func(x ssa.Value) bool { return x == dval }, false)
+	}
+	for _, call := range core.Calls(df) {
+		f := core.CalleeFunc(call)
+		if f == nil || !(core.IsMethod(f, "time", "Time", "Before") || core.IsMethod(f, "time", "Time", "After")) {
+			continue
+		}
+		args := call.Common().Args
+		if len(args) != 2 || isD(args[0]) == isD(args[1]) {
+			continue
+		}
+		key := core.CallKey(df, call) + "/earlier"
+		if (f.Name() == "Before") == isD(args[0]) {
+			c.R.Ok(rule, key, cfg, p.Pos(call.Pos()), "context deadline taken when it is the earlier one")
+		} else {
+			c.R.Bad(rule, key, cfg, p.Pos(call.Pos()), "the context deadline replaces the read-timeout deadline when it is the LATER one: the per-packet read is bounded by max(ReadTimeout, context deadline), so a silent server holds the call until the context ends")
+		}
+	}
+	// now+ReadTimeout only for a positive ReadTimeout
+	isTO := func(v ssa.Value) bool {
+		return core.DependsOn(v, func(x ssa.Value) bool { return strings.HasSuffix(core.FieldOrigin(x, 0), ".readTimeout") }, false)
+	}
+	for fn := range core.StaticReach(pk, 2) {
+		for _, call := range core.Calls(fn) {
+			f := core.CalleeFunc(call)
+			if f == nil || !core.IsMethod(f, "time", "Time", "Add") || len(call.Common().Args) != 2 || !isTO(call.Common().Args[1]) {
+				continue
+			}
+			key := core.CallKey(fn, call) + "/positive"
+			verdict := ""
+			for _, h := range fn.Blocks {
+				ifi, ok := h.Instrs[len(h.Instrs)-1].(*ssa.If)
+				if !ok {
+					continue
+				}
+				bo, ok := ifi.Cond.(*ssa.BinOp)
+				if !ok {
+					continue
+				}
+				var k int64
+				var left bool // timeout on the left
+				if kv, okc := core.ConstInt(bo.Y); okc && isTO(bo.X) {
+					k, left = kv, true
+				} else if kv, okc := core.ConstInt(bo.X); okc && isTO(bo.Y) {
+					k, left = kv, false
+				} else {
+					continue
+				}
+				succ := -1
+				if h.Succs[0].Dominates(call.Block()) && h.Succs[0] != h.Succs[1] && len(h.Succs[0].Preds) == 1 {
+					succ = 0
+				} else if h.Succs[1].Dominates(call.Block()) && len(h.Succs[1].Preds) == 1 {
+					succ = 1
+				}
+				if succ < 0 {
+					continue
+				}
+				taken := func(x int64) bool {
+					a, b := x, k
+					if !left {
+						a, b = k, x
+					}
+					var t bool
+					switch bo.Op {
+					case token.GTR:
+						t = a > b
+					case token.GEQ:
+						t = a >= b
+					case token.LSS:
+						t = a < b
+					case token.LEQ:
+						t = a <= b
+					case token.EQL:
+						t = a == b
+					case token.NEQ:
+						t = a != b
+					}
+					return t == (succ == 0)
+				}
+				if !taken(-1) && !taken(0) && taken(1) {
+					verdict = "ok"
+				} else if verdict == "" {
+					verdict = sprintf("the guard at %s admits ReadTimeout=%s", p.Pos(ifi.Cond.Pos()), map[bool]string{true: "-1 (NoTimeout): the deadline lies in the past and every read that has to wait fails at once", false: "0: the deadline is now"}[taken(-1)])
+				}
+			}
+			switch verdict {
+			case "ok":
+				c.R.Ok(rule, key, cfg, p.Pos(call.Pos()), "now+ReadTimeout computed only when ReadTimeout > 0")
+			case "":
+				c.R.Bad(rule, key, cfg, p.Pos(call.Pos()), "now+ReadTimeout is computed without a test that ReadTimeout is positive: NoTimeout (-1) yields a deadline in the past")
+			default:
+				c.R.Bad(rule, key, cfg, p.Pos(call.Pos()), verdict)
 			}
 		}
 	}
